@@ -21,7 +21,13 @@ pub struct Spec {
     /// the transport accepts only the first `n` bytes of the first Keep Alive and blocks until `t` ms
     #[serde(default)]
     ka_stall: Option<(usize, u64)>,
+    /// Transfer intent with a valid authentication cookie that names this target as the one the player
+    /// was sent to before (the cookie vouches for the identity; routing is still the strategy's decision)
+    #[serde(default)]
+    cookie_target: Option<String>,
 }
+
+const C03_SECRET: &[u8] = b"c03-cookie-secret";
 
 fn t(id: &str, addr: &str) -> TargetSpec {
     TargetSpec::new(id, addr)
@@ -156,6 +162,12 @@ fn text_view(msg: &str) -> Value {
 fn build(s: &Spec) -> Case {
     let mut case = Case::default();
     case.script = Login { locale: s.locale.clone(), ..Default::default() }.steps();
+    if let Some(tid) = &s.cookie_target {
+        case.cfg.auth_secret = Some(C03_SECRET.to_vec());
+        let body = crate::util::auth_cookie_body(crate::util::wall_secs() - 5, &case.cfg.client_addr.to_string(), NAME1, UUID1, Some(tid), &[]);
+        let cookie = crate::util::sign(&body, C03_SECRET);
+        case.script = Login { intent: 3, locale: s.locale.clone(), auth_cookie: Some(Some(cookie)), ..Default::default() }.steps();
+    }
     case.adapters.disc = match disc_list(&s.disc) {
         Some(l) => DiscPlan::Targets(l),
         None => DiscPlan::Err,
@@ -300,7 +312,7 @@ fn specs(thorough: bool) -> Vec<Spec> {
         for f in filters {
             for st in strats {
                 for lat in &lats {
-                    v.push(Spec { disc: d.into(), filter: f.into(), strat: st.into(), locale: "de_de".into(), table: "en+de+de_at".into(), lat: *lat, ka_stall: None });
+                    v.push(Spec { disc: d.into(), filter: f.into(), strat: st.into(), locale: "de_de".into(), table: "en+de+de_at".into(), lat: *lat, ka_stall: None, cookie_target: None });
                 }
             }
         }
@@ -310,7 +322,19 @@ fn specs(thorough: bool) -> Vec<Spec> {
         for stall in stalls {
             for (d, f, st) in [("v4+v6", "identity", "pick-1"), ("v4", "identity", "none"), ("three", "reverse", "pick-2")] {
                 // (no failing stage here: a connection that is aborted while a frame is stuck in the transport necessarily leaves it torn)
-                v.push(Spec { disc: d.into(), filter: f.into(), strat: st.into(), locale: "de_de".into(), table: "en+de+de_at".into(), lat, ka_stall: Some(stall) });
+                v.push(Spec { disc: d.into(), filter: f.into(), strat: st.into(), locale: "de_de".into(), table: "en+de+de_at".into(), lat, ka_stall: Some(stall), cookie_target: None });
+            }
+        }
+    }
+    // a returning player: Transfer intent with a valid cookie that records where the player was sent last
+    // time - one of the targets on offer now, or one that no longer exists
+    for d in ["v4+v6", "three", "same-addr-other-id", "dup", "v4"] {
+        let ids: Vec<String> = disc_list(d).unwrap_or_default().iter().map(|t| t.id.clone()).chain(["gone".to_string()]).collect();
+        for tid in ids {
+            for f in ["identity", "reverse", "keep-1", "empty"] {
+                for st in ["pick-0", "pick-1", "pick-2", "none", "err"] {
+                    v.push(Spec { disc: d.into(), filter: f.into(), strat: st.into(), locale: "de_de".into(), table: "en+de+de_at".into(), lat: [0, 0, 0], ka_stall: None, cookie_target: Some(tid.clone()) });
+                }
             }
         }
     }
@@ -320,7 +344,7 @@ fn specs(thorough: bool) -> Vec<Spec> {
     for l in locales {
         for tb in tables {
             for (d, st) in [("v4", "none"), ("empty", "pick-0")] {
-                v.push(Spec { disc: d.into(), filter: "identity".into(), strat: st.into(), locale: l.into(), table: tb.into(), lat: [0, 0, 0], ka_stall: None });
+                v.push(Spec { disc: d.into(), filter: "identity".into(), strat: st.into(), locale: l.into(), table: tb.into(), lat: [0, 0, 0], ka_stall: None, cookie_target: None });
             }
         }
     }
@@ -378,10 +402,10 @@ pub fn run(cli: Cli) -> ! {
     rep.set("evaluations", json!(all.len()));
     rep.set("distinct_nontrivial", json!(d));
     rep.set("exhaustive", json!(true));
-    rep.set("rule", json!("full product discovery(8) x filter(7) x strategy(6) x adapter latencies, plus client locale(19) x localisation table(9) on both no-target paths; distinct_nontrivial = distinct (clientbound trace without keep-alives, result)"));
+    rep.set("rule", json!("full product discovery(8) x filter(7) x strategy(6) x adapter latencies, plus client locale(19) x localisation table(9) on both no-target paths, plus returning players (Transfer intent, valid cookie naming each target on offer or a vanished one as the previous destination) x 5 discoveries x 4 filters x 5 strategies; distinct_nontrivial = distinct (clientbound trace without keep-alives, result)"));
     rep.sample(json!({"spec": all[0]}));
-    rep.sample(json!({"spec": Spec { disc: "v4+v6".into(), filter: "reverse".into(), strat: "pick-0".into(), locale: "de_de".into(), table: "en+de+de_at".into(), lat: [0, 0, 0], ka_stall: None }, "expect": "Transfer to 2001:db8::1 port 65535"}));
-    rep.sample(json!({"spec": Spec { disc: "v4".into(), filter: "identity".into(), strat: "none".into(), locale: "de_AT".into(), table: "en+de+de_at".into(), lat: [0, 0, 0], ka_stall: None }, "expect": "Disconnect with the 'de' message (de_AT -> de)"}));
+    rep.sample(json!({"spec": Spec { disc: "v4+v6".into(), filter: "reverse".into(), strat: "pick-0".into(), locale: "de_de".into(), table: "en+de+de_at".into(), lat: [0, 0, 0], ka_stall: None, cookie_target: None }, "expect": "Transfer to 2001:db8::1 port 65535"}));
+    rep.sample(json!({"spec": Spec { disc: "v4".into(), filter: "identity".into(), strat: "none".into(), locale: "de_AT".into(), table: "en+de+de_at".into(), lat: [0, 0, 0], ka_stall: None, cookie_target: None }, "expect": "Disconnect with the 'de' message (de_AT -> de)"}));
     rep.assume("locale keys are compared as exact strings (the statement does not define case folding); when no table exists for the whole chain only 'exactly one Disconnect, no Transfer' is judged");
     rep.assume("Transfer host is compared as an IP address, not as text");
     rep.finish()
